@@ -28,6 +28,15 @@ class Prop(PoolProp):
             cfg.ready_mid = True
         return cfg
 
+    def cover_cfgs(self, tier):
+        # lifecycle with faults: begin() of the worker raises / the functor raises at the first chunk; until_all_ready
+        cfgs = [Cfg(n_workers=1, wait_ready=True, calls=[(1, 1, True)]),
+                Cfg(n_workers=2, calls=[(1, 1, False)], item_fault=[(0, 0)])]
+        if tier == "thorough":
+            cfgs += [Cfg(n_workers=2, factory=True, quota=1, wait_ready=True, calls=[(2, 1, True)]),
+                     Cfg(n_workers=2, calls=[(2, 1, True)], begin_fault=[1])]
+        return cfgs
+
     def corpus(self):
         return [(Cfg(n_workers=2, wait_ready=True, factory=True, quota=1, calls=[(3, 1, True)]), ("roles", "WCFR", "never", True),
                  chooser_roles("WCFR", "never", True), "quota and replacement"),
